@@ -13,6 +13,7 @@ same function runs in two modes:
 from __future__ import annotations
 
 import math
+import os
 import time
 import traceback
 from fractions import Fraction
@@ -66,6 +67,87 @@ class Stats:
                 self.max_pc = max(self.max_pc, v)
             else:
                 setattr(self, k, getattr(self, k) + v)
+
+
+def _is_zero(t):
+    return z3.is_rational_value(t) and t.numerator_as_long() == 0
+
+
+def _term_info(f, hidden_ids):
+    """(ids of hidden constants, ids of uninterpreted applications) occurring in f"""
+    hid, ufs = set(), set()
+    seen = set()
+    stack = [f]
+    while stack:
+        x = stack.pop()
+        if x.get_id() in seen:
+            continue
+        seen.add(x.get_id())
+        if z3.is_app(x):
+            if x.decl().kind() == z3.Z3_OP_UNINTERPRETED:
+                if x.num_args() > 0:
+                    ufs.add(x.get_id())
+                elif x.get_id() in hidden_ids:
+                    hid.add(x.get_id())
+            stack.extend(x.children())
+    return hid, ufs
+
+
+def _cone_of_influence(fs, n_goal, hidden_ids):
+    """drop the hypotheses that only constrain auxiliary symbols (square roots, ...) the goal does not depend on
+
+    ``fs`` = hypotheses followed by ``n_goal`` goal formulas.  Dropping hypotheses over-approximates: "unsat" carries over.
+    A hypothesis is kept when it mentions an auxiliary symbol the goal (transitively) depends on, or mentions none and
+    no uninterpreted application outside those already in the cone."""
+    if not n_goal:
+        return fs
+    hyps, goal = fs[: len(fs) - n_goal], fs[len(fs) - n_goal :]
+    info = [_term_info(f, hidden_ids) for f in hyps]
+    need_h, need_u = set(), set()
+    for g in goal:
+        h, u = _term_info(g, hidden_ids)
+        need_h |= h
+        need_u |= u
+    keep = [False] * len(hyps)
+    changed = True
+    while changed:
+        changed = False
+        for i, (h, u) in enumerate(info):
+            if not keep[i] and h & need_h:
+                keep[i] = True
+                if not h <= need_h or not u <= need_u:
+                    need_h |= h
+                    need_u |= u
+                    changed = True
+    for i, (h, u) in enumerate(info):
+        if not keep[i] and not h and u <= need_u:
+            keep[i] = True
+    return [f for f, k in zip(hyps, keep) if k] + list(goal)
+
+
+def _abstract_uf(fs):
+    """formulas with every outermost uninterpreted application replaced by a fresh constant (None: nothing to do)"""
+    apps = {}
+    seen = set()
+    stack = list(fs)
+    while stack:
+        x = stack.pop()
+        if x.get_id() in seen:
+            continue
+        seen.add(x.get_id())
+        if z3.is_app(x):
+            if x.decl().kind() == z3.Z3_OP_UNINTERPRETED and x.num_args() > 0:
+                apps[x.get_id()] = x
+                continue
+            stack.extend(x.children())
+        elif z3.is_quantifier(x):
+            return None
+    if not apps:
+        return list(fs)
+    pairs = []
+    for k, (_, a) in enumerate(sorted(apps.items())):
+        pairs.append((a, z3.Const(f"_ufabs{k}", a.sort())))
+    return [z3.substitute(f, *pairs) for f in fs]
 
 
 class PathCtx:
@@ -138,6 +220,18 @@ class PathCtx:
             if r == "sat":
                 m = s2.model()
             self.stats.fresh_queries = getattr(self.stats, "fresh_queries", 0) + 1
+            if r == "unknown":
+                # uninterpreted applications (log, atan, ... of symbolic arguments) keep z3 away from nlsat:
+                # replacing every outermost application by a fresh constant over-approximates the query, so
+                # "unsat" carries over; any other answer is discarded (a model could violate functionality)
+                abstracted = _abstract_uf(_cone_of_influence(fs, len(extra), {h.get_id() for h in self.hidden}))
+                if abstracted is not None:
+                    s3 = z3.Solver()
+                    s3.set("timeout", self.query_timeout_ms)
+                    s3.add(*abstracted)
+                    if str(s3.check()) == "unsat":
+                        r = "unsat"
+                    self.stats.fresh_queries += 1
         self.stats.queries[r] = self.stats.queries.get(r, 0) + 1
         self.stats.solver_s += time.time() - t0
         return r, m
@@ -457,6 +551,11 @@ class SymEnv:
             self.p.fresh_mode = True
         try:
             r, m = self.p._check(neg)
+            if r == "unknown":
+                # not(A and B) is satisfiable iff not(A) or not(B) is: decide the conjuncts one by one
+                r, m = self._split_check(claim_t, 2)
+                if r != "unknown":
+                    detail = (detail + "," if detail else "") + "split"
         finally:
             self.p.fresh_mode = saved_mode
         dt = time.time() - t0
@@ -478,6 +577,20 @@ class SymEnv:
             ob.smt = txt if len(txt) < 400000 else None
         self.obligations.append(ob)
         return r == "unsat"
+
+    def _split_check(self, claim_t, depth):
+        if not (z3.is_and(claim_t) and claim_t.num_args() > 1):
+            return "unknown", None
+        verdict = "unsat"
+        for child in claim_t.children():
+            r, m = self.p._check(z3.Not(child))
+            if r == "unknown" and depth > 1:
+                r, m = self._split_check(child, depth - 1)
+            if r == "sat":
+                return r, m
+            if r == "unknown":
+                verdict = "unknown"
+        return verdict, None
 
     def prove(self, name, cond, info=False):
         if isinstance(cond, (bool, np.bool_)):
@@ -526,7 +639,23 @@ class SymEnv:
                 st.discharged += 1
             self.obligations.append(Obligation(name, "unsat", 0.0, detail="syntactic", info=info, path=[bool(d[0]) for d in self.p.decisions[: self.p.pos]]))
             return True
-        return self._discharge(name, z3.And(*cl), info=info)
+        ok = self._discharge(name, z3.And(*cl), info=info)
+        if not ok and self.obligations and self.obligations[-1].verdict == "unknown" and self.obligations[-1].name == name:
+            # polynomial identities of high degree (multi-stage schemes): z3's simplifier in sum-of-monomials mode
+            # expands the differences; if every one of them cancels to 0 the claim holds identically
+            try:
+                zero = all(_is_zero(z3.simplify(z3.substitute(e.arg(0), *self.p.int_subst) if self.p.int_subst else e.arg(0), som=True)) for e in exact)
+            except z3.Z3Exception:
+                zero = False
+            if zero:
+                ob = self.obligations[-1]
+                ob.verdict = "unsat"
+                ob.detail = "identity (z3 simplify som=True)"
+                if not info:
+                    self.p.stats.inconclusive -= 1
+                    self.p.stats.discharged += 1
+                return True
+        return ok
 
     def same(self, name, a, b, info=False):
         """exact equality of all elements (term level, decided by the solver)"""
@@ -732,6 +861,13 @@ class ExploreResult:
         self.validation_points: list = []
 
 
+def _in_code_under_test(filename: str) -> bool:
+    import pde
+
+    root = os.path.dirname(os.path.abspath(pde.__file__))
+    return os.path.abspath(filename).startswith(root + os.sep)
+
+
 def explore(scenario, cfg, *, max_paths=2000, tmax=300.0, query_timeout_ms=20000, keep_smt=1, allowed_exceptions=(), max_decisions=400, max_int_fork=64, prefix=None, validate_paths=0, path_timeout=120.0) -> ExploreResult:
     """run ``scenario(env, cfg)`` on every feasible path (DFS over branch decisions)"""
     res = ExploreResult()
@@ -766,7 +902,24 @@ def explore(scenario, cfg, *, max_paths=2000, tmax=300.0, query_timeout_ms=20000
             res.notes.setdefault("allowed_exceptions", 0)
             res.notes["allowed_exceptions"] += 1
         except Exception as e:  # harness or code-under-test error on this path
-            res.errors.append({"kind": "exception", "msg": f"{type(e).__name__}: {e}", "trace": traceback.format_exc()[-3000:], "path": [bool(d[0]) for d in p.decisions[: p.pos]]})
+            err = {"kind": "exception", "msg": f"{type(e).__name__}: {e}", "trace": traceback.format_exc()[-3000:], "path": [bool(d[0]) for d in p.decisions[: p.pos]], "exc_type": type(e).__name__}
+            # raised by the code under test (innermost frame inside the pde package)?  Then a model of the path is kept so
+            # that the runner can replay it on floats: an exception that reproduces there is a violation, not a harness fault
+            tb = e.__traceback__
+            while tb is not None and tb.tb_next is not None:
+                tb = tb.tb_next
+            fname = tb.tb_frame.f_code.co_filename if tb is not None else ""
+            err["raised_in"] = fname
+            if _in_code_under_test(fname):
+                try:
+                    _arm_watchdog(30)
+                    m = p._ensure_model()
+                    err["values"] = {n: _model_value(m, v) for n, v in p.vars.items()}
+                except BaseException:  # noqa: BLE001 - no model: stays a harness error
+                    pass
+                finally:
+                    _arm_watchdog(0)
+            res.errors.append(err)
         finally:
             _arm_watchdog(0)
             V._State.ctx = None
@@ -885,4 +1038,10 @@ def run_concrete(scenario, cfg, values: dict):
         err = f"abort: {e}"
     except Exception as e:
         err = f"{type(e).__name__}: {e}\n{traceback.format_exc()[-2000:]}"
+        tb = e.__traceback__
+        while tb is not None and tb.tb_next is not None:
+            tb = tb.tb_next
+        if tb is not None and _in_code_under_test(tb.tb_frame.f_code.co_filename):
+            # the real code rejects an input of the scenario: recorded like a failed obligation
+            env.failed.append({"name": f"no-exception:{type(e).__name__}", "kind": "exception", "msg": str(e)[:300]})
     return env.failed, env.checked, err, env.notes
